@@ -903,6 +903,7 @@ func (w *Worker) assume(fr *frame, c *smt.Term) {
 		p.assertPC(c)
 		return
 	}
+	p.installPendingModel()
 	if p.cmodel != nil && evaluable(c) && smt.Eval(c, p.cmodel) != 0 {
 		p.assertPC(c) // the current model already satisfies it
 		return
